@@ -118,7 +118,8 @@ def gen_call(draw, target, params, env_vars, allow_kw=True):
     if style == "value" and not params:
         return ["value", target]
     if style == "kw" and args and allow_kw:
-        return ["kwcall", target, [[p[0], a] for p, a in zip(params, args)]]
+        kws = [[p[0], a] for p, a in zip(params, args)]
+        return ["kwcall", target, list(draw(st.permutations(kws)))]
     if style == "[]" and len(args) == len(params) and len(args) >= 1:
         return ["call", target, args, "[]"]
     return ["call", target, args, "()"]
@@ -405,6 +406,12 @@ def gen_model_ops(draw, feat, G=None):
                 emit(["set_cells_formula", p, n, gen_cells_def(draw, G, sp, n, feat, params=old.params)])
             continue
         emit(["new_cells", p, gen_cells_def(draw, G, sp, n, feat)])
+    # a model-level reference named like a cells of some space (cells take precedence inside that space)
+    if feat.shadow and draw(st.integers(0, 2)) == 0:
+        p = draw(st.sampled_from(paths))
+        cs = [n for n in G.space(tuple(p)).cells if rank_of(n) >= 0]
+        if cs:
+            emit(["set_ref", [], draw(st.sampled_from(cs)), ["v", draw(small_int())], None])
     # object-valued references to cells
     if feat.objrefs:
         for p in paths:
@@ -460,7 +467,8 @@ def gen_query(draw, G, sids=None):
         else:
             # mixed: first positional, rest keyword
             npos = draw(st.integers(0, len(args) - 1))
-            kw = {params[i][0]: args[i] for i in range(npos, len(args))}
+            order = draw(st.permutations(list(range(npos, len(args)))))
+            kw = {params[i][0]: args[i] for i in order}
             return ["eval", list(sid), n, args[:npos], kw, "()"]
     return ["eval", list(sid), n, args, None, style]
 
